@@ -57,3 +57,4 @@ META.update({
         "the order loop is summarised for a symbolic number of orders. io 'special' output not under contract. " + PROOF_NOTE)),
 })
 from . import c06  # noqa
+from . import c12  # noqa
